@@ -6,10 +6,14 @@ import (
 	"crypto/ecdsa"
 	"crypto/rsa"
 	"crypto/x509"
+	"encoding/asn1"
+	"encoding/base64"
 	"encoding/pem"
 	"fmt"
+	"golang.org/x/crypto/ocsp"
 	"math/big"
 	"net/http"
+	"net/url"
 	"os"
 	"path/filepath"
 	"runtime"
@@ -646,8 +650,117 @@ func c09Streamed(c *mc.Ctx) {
 	c.Tracef("%s, prefix %s, entry %d -> %s", what, prefix, entry, out)
 }
 
+// ---- responders that vouch for each other -------------------------------------------------------------
+
+var (
+	c09MVOnce  sync.Once
+	c09MVRoot  *pki.Cert
+	c09MVLeaf  *pki.Cert
+	c09MVDel   [2]*pki.Cert
+	c09MVLimit = 40
+)
+
+// ocspSerialAsked decodes the serial number an OCSP request (GET path or POST body) asks about.
+func ocspSerialAsked(r *netsim.Request) *big.Int {
+	der := r.Body
+	if r.Method == http.MethodGet {
+		u, err := url.Parse(r.URL)
+		if err != nil {
+			return nil
+		}
+		esc := strings.TrimPrefix(u.EscapedPath(), "/")
+		if i := strings.LastIndex(esc, "/"); i >= 0 {
+			esc = esc[i+1:]
+		}
+		un, err := url.QueryUnescape(esc)
+		if err != nil {
+			return nil
+		}
+		if der, err = base64.StdEncoding.DecodeString(un); err != nil {
+			return nil
+		}
+	}
+	req, err := ocsp.ParseRequest(der)
+	if err != nil {
+		return nil
+	}
+	return req.SerialNumber
+}
+
+// c09MutualResponders: two delegated responder certificates (OCSP-signing EKU, each naming a responder URL of its own, no
+// ocsp-nocheck) answer for each other: the leaf's answer is signed by the first, an answer about the first by the second, an answer
+// about the second by the first, ... Every answer is authentic and immediate. The number of exchanges a check makes is bounded by the
+// sources of the certificates it checks: after 40 exchanges the server stops answering and the check is reported.
+func c09MutualResponders(c *mc.Ctx) {
+	c09MVOnce.Do(func() {
+		c09MVRoot = pki.Issue(pki.RootTmpl("c09 mv root"), pki.K("p256-a"), nil, nil)
+		for i := range c09MVDel {
+			t := pki.LeafTmpl(fmt.Sprintf("c09 mv responder %d", i+1))
+			t.EKUs = []asn1.ObjectIdentifier{pki.OIDEKUOCSPSigning}
+			t.OCSP = []string{fmt.Sprintf("http://ocsp.test/c%d/r0", 7+i)}
+			c09MVDel[i] = pki.Issue(t, pki.K([]string{"p256-f", "p256-g"}[i]), c09MVRoot, nil)
+		}
+		lt := pki.LeafTmpl("c09 mv leaf")
+		lt.OCSP = []string{ocspURL(0, 0)}
+		c09MVLeaf = pki.Issue(lt, pki.K("p256-e"), c09MVRoot, nil)
+	})
+	entry := c.ChooseFree("entry", 2)
+	status := []int{pki.OCSPGood, pki.OCSPRevoked}[c.ChooseFree("leaf-status", 2)]
+	var exchanges int32
+	tr := &netsim.Transport{}
+	tr.Handler = func(r *netsim.Request, raw *http.Request) netsim.Answer {
+		if atomic.AddInt32(&exchanges, 1) > int32(c09MVLimit) {
+			return netsim.Answer{Err: netsim.ErrTransport}
+		}
+		serial := ocspSerialAsked(r)
+		if serial == nil {
+			return netsim.Answer{Status: 400}
+		}
+		signer, st := c09MVDel[0], pki.OCSPGood
+		switch {
+		case serial.Cmp(c09MVLeaf.X.SerialNumber) == 0:
+			st = status
+		case serial.Cmp(c09MVDel[0].X.SerialNumber) == 0:
+			signer = c09MVDel[1]
+		case serial.Cmp(c09MVDel[1].X.SerialNumber) == 0:
+			signer = c09MVDel[0]
+		default:
+			return netsim.Answer{Status: 404}
+		}
+		return okResp(pki.ForgeOCSP(pki.OCSPSpec{Issuer: c09MVRoot, Signer: signer.Key, Responder: signer, Embed: []*pki.Cert{signer},
+			Singles: []pki.OCSPSingle{{Serial: serial, Status: st, RevokedAt: pki.Now.Add(-time.Hour), Reason: 1, NextUpdate: pki.Now.Add(24 * time.Hour)}}}))
+	}
+	chain := []*x509.Certificate{c09MVLeaf.X, c09MVRoot.X}
+	out := "?"
+	pan, hung, dump := guarded(func() {
+		if entry == 0 {
+			v, _ := revocation.NewWithOptions(revocation.Options{OCSPHTTPClient: tr.Client(), CertChainPurpose: purpose.CodeSigning})
+			res, err := v.ValidateContext(context.Background(), revocation.ValidateContextOptions{CertChain: chain})
+			if err == nil && len(res) > 0 && res[0] != nil {
+				out = res[0].Result.String()
+			}
+		} else {
+			res, err := revocsp.CheckStatus(revocsp.Options{CertChain: chain, HTTPClient: tr.Client()})
+			if err == nil && len(res) > 0 && res[0] != nil {
+				out = res[0].Result.String()
+			}
+		}
+	})
+	c.State("responders vouching for each other")
+	c.Outcome("mutual-responders:" + out)
+	if c09Report(c, "a check whose responders vouch for each other", "", pan, hung, dump) {
+		return
+	}
+	if n := atomic.LoadInt32(&exchanges); n > int32(c09MVLimit) {
+		c.Fail("C09 unbounded number of exchanges (responders vouching for each other)", "entry %d: the check made more than %d exchanges for one certificate with one responder; it only stopped because the server stopped answering", entry, c09MVLimit)
+	}
+	c.Tracef("entry %d, leaf status %d -> %s after %d exchanges", entry, status, out, atomic.LoadInt32(&exchanges))
+}
+
 func c09Scenarios(tier mc.Tier) []mc.Scenario {
 	var out []mc.Scenario
+	out = append(out, mc.Scenario{Name: "C09-responders-vouching-for-each-other", Bound: -1, Expect: 4, Body: c09MutualResponders,
+		Params: map[string]string{"delegates": "2, each with a responder URL of its own, no ocsp-nocheck", "exchangeLimit": fmt.Sprint(c09MVLimit)}})
 	out = append(out, mc.Scenario{Name: "C09-long-chains", Bound: -1, Expect: 4 * 4 * 3, Body: func(c *mc.Ctx) { longChains(c, "C09") },
 		Params: map[string]string{"lengths": "9, 10, 12, 17", "shapes": "all with responder / none with sources / first eight without / alternating", "entries": "validatecontext, validate, checkstatus"}})
 	out = append(out, mc.Scenario{Name: "C09-bodies-that-never-end", Bound: -1, Expect: int64(len(c09StreamTargets) * len(c09StreamStatus) * len(c09StreamPrefix) * 2), Body: c09Streamed,
